@@ -59,9 +59,11 @@ KINDS = ["ones", "positive", "zeros", "negative", "wild", "single"]
 
 # ---------------------------------------------------------------- implementation side
 def tagged(n):
+    """walker k has every entry equal to k + (2k+1)i: complex, as phaseless walkers are, so that a routine which
+    returns anything but an exact copy of an existing walker (e.g. drops the imaginary part) is seen"""
     import jax.numpy as jnp
-    base = jnp.arange(n, dtype=jnp.float64).reshape(n, 1, 1) * jnp.ones((n, 2, 1))
-    return base
+    k = jnp.arange(n, dtype=jnp.float64).reshape(n, 1, 1)
+    return (k + 1j * (2 * k + 1)) * jnp.ones((n, 2, 1))
 
 
 def tags(a):
@@ -69,7 +71,14 @@ def tags(a):
     t = a[:, 0, 0]
     if not (a == t.reshape(-1, 1, 1)).all():
         return None
-    return [int(round(float(x))) if float(x) == round(float(x)) else float(x) for x in t]
+    out = []
+    for x in t:
+        x = complex(x)
+        idx = x.real % TAG2
+        if idx != round(idx) or x.imag != 2 * idx + 1:
+            return None      # not a copy of an existing walker
+        out.append(int(round(x.real)))
+    return out
 
 
 def impl_variants(w, zeta, rng, mpi_ranks):
